@@ -4,7 +4,7 @@
    st = (store of row objects, the receiver's taxon -> row id map). *)
 From Coq Require Import ZArith List Bool.
 From DV Require Import Model.PyPrims Model.C19Model Model.C19RowHeap Model.C19Prims Model.C19ObjPrims
-                       Gen.CharMatrixObj Proofs.C19GenObj.
+                       Gen.CharMatrixObj Proofs.C19GenObj Proofs.C19GenObj2 Proofs.C19GenObj3 Proofs.C19GenObj4.
 Import ListNotations.
 Open Scope Z_scope.
 
@@ -51,3 +51,137 @@ Theorem generated_update_sequences_is_model :
   if negb (Z.eqb ns_other ns_self) then (st, Err ValueErr) else (o_update_rows st o, Ok tt).
 Proof. exact gen_o_update_sequences_eq. Qed.
 Print Assumptions generated_update_sequences_is_model.
+
+(* ================= second group.  Side conditions: NoDup of the keys of a Python dict (satisfiable:
+   Proofs/C19GenObj2.v extend_hyp_sat, keep_hyp_sat); runs on concrete states: extend_sequences_run, fill_run,
+   export_run there and in Proofs/C19GenObj3.v ================= *)
+
+(* new_sequence: ONE new object holding the given values is stored and returned *)
+Theorem generated_new_sequence_is_model :
+  forall (T : list tid) (s : store) (m : omatrix) (t : tid) (vals : row),
+  gen_o_new_sequence T (s, om_rows m) t vals =
+  match o_new_sequence T s m t vals with
+  | Ok (s', m', r) => ((s', om_rows m'), Ok r)
+  | Err e => ((s, om_rows m), Err e)
+  | OutOfFuel => ((s, om_rows m), OutOfFuel)
+  end.
+Proof. exact gen_o_new_sequence_eq. Qed.
+Print Assumptions generated_new_sequence_is_model.
+
+(* __getitem__: the STORED object itself; a missing row is created by new_sequence *)
+Theorem generated_getitem_is_model :
+  forall (T : list tid) (s : store) (m : omatrix) (k : key),
+  gen_o_getitem T (s, om_rows m) k =
+  match o_getitem T s m k with
+  | Ok (s', m', r) => ((s', om_rows m'), Ok r)
+  | Err e => ((s, om_rows m), Err e)
+  | OutOfFuel => ((s, om_rows m), OutOfFuel)
+  end.
+Proof. exact gen_o_getitem_eq. Qed.
+Print Assumptions generated_getitem_is_model.
+
+(* extend_sequences / extend_matrix: an existing taxon's row OBJECT of the receiver is extended in place
+   (o_extend_in: mutate), a new taxon gets a NEW object holding a copy (o_copy_in: alloc), the argument's
+   objects are neither stored nor mutated *)
+Theorem generated_extend_sequences_is_model :
+  forall (ns_self ns_other : nsid) (st : store * orows) (o : orows) (addnew : bool),
+  NoDup (map fst o) ->
+  gen_o_extend_sequences ns_self ns_other st o addnew =
+  if negb (Z.eqb ns_other ns_self) then (st, Err ValueErr) else (o_extend_rows addnew st o, Ok tt).
+Proof. exact gen_o_extend_sequences_eq. Qed.
+Print Assumptions generated_extend_sequences_is_model.
+
+Theorem generated_extend_matrix_is_model :
+  forall (ns_self ns_other : nsid) (st : store * orows) (o : orows),
+  NoDup (map fst o) ->
+  gen_o_extend_matrix ns_self ns_other st o =
+  if negb (Z.eqb ns_other ns_self) then (st, Err ValueErr) else (o_extend_matrix_rows st o, Ok tt).
+Proof. exact gen_o_extend_matrix_eq. Qed.
+Print Assumptions generated_extend_matrix_is_model.
+
+(* remove_ / discard_ / keep_sequences change the map only: the store is the same afterwards *)
+Theorem generated_remove_sequences_is_model :
+  forall (taxa : list tid) (st : store * orows),
+  gen_o_remove_sequences st taxa =
+  ((fst st, fst (o_remove_rows (snd st) taxa)),
+   match snd (o_remove_rows (snd st) taxa) with None => Ok tt | Some x => Err x end).
+Proof. exact gen_o_remove_sequences_eq. Qed.
+Print Assumptions generated_remove_sequences_is_model.
+
+Theorem generated_discard_sequences_is_model :
+  forall (taxa : list tid) (st : store * orows),
+  gen_o_discard_sequences st taxa = ((fst st, o_discard_rows (snd st) taxa), Ok tt).
+Proof. exact gen_o_discard_sequences_eq. Qed.
+Print Assumptions generated_discard_sequences_is_model.
+
+Theorem generated_keep_sequences_is_model :
+  forall (st : store * orows) (taxa : list tid),
+  NoDup (map fst (snd st)) ->
+  gen_o_keep_sequences st taxa = ((fst st, o_keep_rows (snd st) taxa), Ok tt).
+Proof. exact gen_o_keep_sequences_eq. Qed.
+Print Assumptions generated_keep_sequences_is_model.
+
+(* fill: every row object reached by iterating the matrix is padded IN PLACE; the map is unchanged, the result is
+   the size; the store equals the model's up to the representation of repeated in-place updates (same next
+   object id, same cells for EVERY object id): the source appends cell by cell, the model writes the padded row once *)
+Theorem generated_fill_is_model :
+  forall (T : list tid) (s : store) (m : omatrix) (value : cell) (size : option Z) (append : bool),
+  exists s' : store,
+    gen_o_fill T (s, om_rows m) value size append = ((s', om_rows m), Ok (snd (o_fill T s m value size append)))
+    /\ s_next s' = s_next (fst (o_fill T s m value size append))
+    /\ forall r : rid, hget s' r = hget (fst (o_fill T s m value size append)) r.
+Proof. exact gen_o_fill_eq. Qed.
+Print Assumptions generated_fill_is_model.
+
+(* pack = fill_taxa (one NEW object per missing taxon), then fill *)
+Theorem generated_pack_is_model :
+  forall (generic : bool) (T : list tid) (s : store) (m : omatrix) (value : cell) (size : option Z) (append : bool),
+  exists s' : store,
+    gen_o_pack generic T (s, om_rows m) value size append
+    = ((s', om_rows (snd (o_pack generic T s m value size append))), Ok tt)
+    /\ s_next s' = s_next (fst (o_pack generic T s m value size append))
+    /\ forall r : rid, hget s' r = hget (fst (o_pack generic T s m value size append)) r.
+Proof. exact gen_o_pack_eq. Qed.
+Print Assumptions generated_pack_is_model.
+
+(* export_character_indices: `self.__class__(self)` is the deep copy (every row object copied once), the column
+   deletion then works in place on the CLONE's objects; the receiver's map is unchanged and the returned map is
+   the model's; the store agrees with the model's on every object id (in particular: the source's rows keep
+   their cells) *)
+Theorem generated_export_character_indices_is_model :
+  forall (T : list tid) (s : store) (m : omatrix) (idx : list Z),
+  exists s' : store,
+    gen_o_export_character_indices T (s, om_rows m) idx
+    = ((s', om_rows m), Ok (om_rows (snd (o_export T s m idx))))
+    /\ s_next s' = s_next (fst (o_export T s m idx))
+    /\ forall r : rid, hget s' r = hget (fst (o_export T s m idx)) r.
+Proof. exact gen_o_export_character_indices_eq. Qed.
+Print Assumptions generated_export_character_indices_is_model.
+
+(* export_character_subset: caseless lookup of the label (KeyError when absent), then export_character_indices *)
+Theorem generated_export_character_subset_is_model :
+  forall (lower : lbl -> lbl) (T : list tid) (subs : subsets) (st : store * orows) (cs : lbl + list Z),
+  gen_o_export_character_subset lower T subs st cs =
+  match cs with
+  | inl l => match find_sub lower l subs with
+             | None => (st, Err KeyErr)
+             | Some idx => gen_o_export_character_indices T st idx
+             end
+  | inr idx => gen_o_export_character_indices T st idx
+  end.
+Proof. exact gen_o_export_character_subset_eq. Qed.
+Print Assumptions generated_export_character_subset_is_model.
+
+(* concatenate (classmethod): the new matrix is built by extend_matrix per argument - it holds NEW objects only
+   (copies of the first argument's rows, extended in place afterwards), the arguments are read through the store;
+   exact equality with o_concatenate (same store, same matrix, same exception).  Side conditions: the keys of every
+   argument's map are distinct (a dict) and every row object of an argument is allocated (id below the store's
+   next id) - the source reads cm.vector_size after extend_matrix, the model before; satisfiable:
+   Proofs/C19GenObj4.v concat_hyp_sat, concat_run *)
+Theorem generated_concatenate_is_model :
+  forall (lower : lbl -> lbl) (suffix : lbl -> Z -> lbl) (locus : Z -> lbl) (taxa_of : nsid -> list tid)
+         (s : store) (cms : list omatrix),
+  Forall (fun cm => NoDup (map fst (om_rows cm)) /\ forall r, In r (map snd (om_rows cm)) -> r < s_next s) cms ->
+  gen_o_concatenate lower suffix locus taxa_of s cms = o_concatenate lower suffix locus taxa_of s cms.
+Proof. exact gen_o_concatenate_eq. Qed.
+Print Assumptions generated_concatenate_is_model.
